@@ -414,30 +414,33 @@ var (
 )
 
 // racSites summarises a goroutine dump: for every goroutine that has a frame
-// in lib/rac, "<innermost rac function>/<wait reason>"; the goroutine that
-// also has the frame `marker` is the client.
-func racSites(dump string, marker string) (client string, others []string) {
-	blocks := strings.Split(dump, "\n\n")
-	for _, b := range blocks {
+// in lib/rac (and was not left behind by an earlier, hung script),
+// "<innermost rac function>/<wait reason>"; the goroutine with id clientID is
+// the client ("" + its wait reason when it is outside lib/rac).
+func racSites(dump string, clientID uint64) (client string, others []string) {
+	cid := fmt.Sprint(clientID)
+	for _, b := range strings.Split(dump, "\n\n") {
 		m := reGoroutine.FindStringSubmatch(b)
 		if m == nil {
-			continue
-		}
-		f := reRacFrame.FindStringSubmatch(b)
-		if f == nil {
 			continue
 		}
 		reason := m[2]
 		if i := strings.Index(reason, ","); i >= 0 {
 			reason = reason[:i] // drop "N minutes"
 		}
-		fn := strings.NewReplacer("(*", "", ")", "").Replace(f[1])
-		site := fn + "/" + reason
-		if strings.Contains(b, marker) {
-			client = site
-		} else {
-			others = append(others, site)
+		f := reRacFrame.FindStringSubmatch(b)
+		if m[1] == cid {
+			if f == nil {
+				client = "(outside lib/rac)/" + reason
+			} else {
+				client = strings.NewReplacer("(*", "", ")", "").Replace(f[1]) + "/" + reason
+			}
+			continue
 		}
+		if f == nil || staleIDs[m[1]] {
+			continue
+		}
+		others = append(others, strings.NewReplacer("(*", "", ")", "").Replace(f[1])+"/"+reason)
 	}
 	return
 }
@@ -478,7 +481,7 @@ func allBlocked(client string, others []string) bool {
 		r := site[i+1:]
 		return strings.HasPrefix(r, "chan send") || strings.HasPrefix(r, "chan receive") || strings.HasPrefix(r, "select")
 	}
-	if !blocked(client) {
+	if !blocked(client) || strings.HasPrefix(client, "(outside") {
 		return false
 	}
 	for _, o := range others {
@@ -510,7 +513,8 @@ type callDone struct {
 // clientGoroutine runs the calls of one script, in lock-step with the
 // controller (ctl: 0 = make the next call, 1 = give up: Close and exit); its
 // frame name is the marker that identifies the client in goroutine dumps.
-func clientGoroutine(r *rac.Reader, bf *builtFile, h [][]int, seed uint64, perturb bool, ch chan<- callDone, ctl <-chan int, tr *tracer) {
+func clientGoroutine(r *rac.Reader, bf *builtFile, h [][]int, seed uint64, perturb bool, ch chan<- callDone, ctl <-chan int, tr *tracer, idc chan<- uint64) {
+	idc <- goid()
 	var buf []byte
 	for i, c := range h {
 		if cmd := <-ctl; cmd != 0 {
@@ -584,7 +588,9 @@ func runConcurrentOnce(bf *builtFile, s script, conc int, seed uint64, perturb b
 	if tr != nil {
 		tr.begin(s, conc)
 	}
-	go clientGoroutine(r, bf, h, seed, perturb, ch, ctl, tr)
+	idc := make(chan uint64, 1)
+	go clientGoroutine(r, bf, h, seed, perturb, ch, ctl, tr, idc)
+	clientID := <-idc
 
 	var replies, oracle []reply
 	timer := time.NewTimer(budget)
@@ -612,7 +618,7 @@ func runConcurrentOnce(bf *builtFile, s script, conc int, seed uint64, perturb b
 				// on channel operations.  A slow call (big reads under -race on a loaded
 				// machine) shows running / runnable / sleeping goroutines and gets more time.
 				dump := allStacks()
-				site, others := racSites(dump, "main.clientGoroutine")
+				site, others := racSites(dump, clientID)
 				if !allBlocked(site, others) && time.Since(started) < 40*budget {
 					timer.Reset(budget / 2)
 					continue
